@@ -183,7 +183,14 @@ impl Decoder for Codec {
                 }
                 DecodeState::PublishHeader(fixed) => {
                     if let Some(len) = Publish::packet_header_size(src, fixed.first_byte)? {
+                        // header can not be larger than the frame
+                        if len > fixed.remaining_length {
+                            return Err(DecodeError::InvalidLength);
+                        }
                         self.state.set(DecodeState::PublishProperties(len, fixed));
+                    } else if src.len() >= fixed.remaining_length as usize {
+                        // whole frame is available, but its header is still incomplete
+                        return Err(DecodeError::InvalidLength);
                     } else {
                         return Ok(None);
                     }
